@@ -134,3 +134,33 @@ package jen
 //@ func (*Group).render [C01,C13,C08,C09,C15]
 //@   implements Code.render
 //@   unfold R
+
+// ---- file assembly ----
+
+//@ func (*File).renderImports [C03,C04,C07,C19,C15,C02]
+//@   unfold ImportLines CommentLines R:4 RS:4 null:4
+//@   requires file: regpre(f)
+//@   requires source != 0
+//@   free requires tree: treeOK()
+//@   modifies written[source], nwrites[source], failed[source], mapof(f.imports)
+//@   ensures [C03,C04,C07,C19] block: err == nil ==> written[source] == old(written[source]) ++ ImportBlock(mapof(f.imports), f.cgoPreamble)
+//@   ensures [C04,C08] same: err == nil ==> mapof(f.imports) == old(mapof(f.imports))
+//@   ensures [C08] stable: stable(old(mapof(f.imports)), mapof(f.imports)) && regpre(f) && Fof(f) == old(Fof(f))
+//@   loop 1 invariant dom: forall q string :: { mapof(filtered).dom[q] } has(filtered, q) == ($m.dom[q] && $idx[q] < $i && !(q == "C" && separateCgo))
+//@   loop 1 invariant val: forall q string :: { mapof(filtered).val[q] } filtered[q] == (has(filtered, q) ? $m.val[q] : mk_importdef("", false))
+//@   loop 1 invariant card: len(filtered) == $i - (($m.dom["C"] && $idx["C"] < $i && separateCgo) ? 1 : 0)
+//@   loop 1 invariant imps: mapof(f.imports) == old(mapof(f.imports)) && mapof(f.hints) == old(mapof(f.hints)) && filtered > old(alloc)
+//@   loop 1 invariant misc: filtered != nil && separateCgo == (len(f.cgoPreamble) > 0) && $m == old(mapof(f.imports)) && written[source] == old(written[source])
+//@   loop 2 invariant one: ($i == 0 && written[source] == old(written[source])) || ($i == 1 && written[source] == old(written[source]) ++ "import " ++ Entry($m, $ks[0]) ++ "\n\n")
+//@   loop 2 invariant fm: $m == mainBlock(old(mapof(f.imports)), separateCgo) && $n == 1
+//@   loop 3 invariant collect: len(paths) == $i && (forall j int :: { paths[j] } (0 <= j && j < $i) ==> paths[j] == $ks[j])
+//@   loop 3 invariant fresh: paths.arr > old(alloc) && filtered > old(alloc)
+//@   loop 3 invariant fm: $m == mainBlock(old(mapof(f.imports)), separateCgo) && mapof(filtered) == $m && written[source] == old(written[source]) ++ "import (\n"
+//@   loop 4 invariant fm: mapof(filtered) == mainBlock(old(mapof(f.imports)), separateCgo) && len(paths) == len(filtered) && finiteImp(mapof(filtered))
+//@   loop 4 invariant members: forall j int :: { paths[j] } (0 <= j && j < len(paths)) ==> has(filtered, paths[j])
+//@   loop 4 invariant ascending: forall i int, j int :: { paths[i], paths[j] } (0 <= i && i < j && j < len(paths)) ==> paths[i] < paths[j]
+//@   loop 4 invariant marker: isSortedEnum(cells(paths), mapof(filtered))
+//@   loop 4 invariant sorted: forall j int :: { paths[j] } (0 <= j && j < len(paths)) ==> paths[j] == sortedKeysOf(mapof(filtered))[j]
+//@   loop 4 invariant lines: written[source] == old(written[source]) ++ "import (\n" ++ ImportLines(sortedKeysOf(mapof(filtered)), mapof(filtered), $i)
+//@   loop 5 invariant imps: mapof(f.imports) == old(mapof(f.imports)) && Fof(f) == old(Fof(f))
+//@   loop 5 invariant pre: written[source] == old(written[source]) ++ MainBlockText(mainBlock(old(mapof(f.imports)), len(f.cgoPreamble) > 0)) ++ CommentLines(f.cgoPreamble, $i)
